@@ -1,1 +1,9 @@
-// linked into native replays only: nothing needed yet (the harness includes the real units)
+// linked into native replays only: weak stand-ins for the globals/functions that live in main.c
+#include <stdbool.h>
+#include <stdio.h>
+typedef struct { char **data; int capacity; int len; } StringArray_;
+__attribute__((weak)) StringArray_ include_paths;
+__attribute__((weak)) bool opt_fcommon = true;
+__attribute__((weak)) bool opt_fpic;
+__attribute__((weak)) char *base_file;
+__attribute__((weak)) bool file_exists(char *path) { FILE *f = fopen(path, "r"); if (!f) return false; fclose(f); return true; }
